@@ -173,14 +173,22 @@ impl Proj {
     }
 }
 
+thread_local! {
+    static DEST_OFFSET: std::cell::Cell<usize> = std::cell::Cell::new(0);
+}
+
 pub fn apply<R: RngCore>(g: &mut R, op: &Op) -> Out {
     match op {
         Op::U32 => Out::U32(g.next_u32()),
         Op::U64 => Out::U64(g.next_u64()),
         Op::Fill(n) => {
-            let mut b = vec![0xEEu8; *n];
-            g.fill_bytes(&mut b);
-            Out::Bytes(b)
+            // the destination slice starts at every alignment 0..7 in turn, and
+            // is surrounded by guard bytes that must stay untouched
+            let off = DEST_OFFSET.with(|c| { let v = c.get(); c.set((v + 3) % 8); v });
+            let mut b = vec![0xEEu8; *n + 16];
+            g.fill_bytes(&mut b[off..off + *n]);
+            assert!(b[..off].iter().all(|&x| x == 0xEE) && b[off + *n..].iter().all(|&x| x == 0xEE), "fill_bytes wrote outside its destination");
+            Out::Bytes(b[off..off + *n].to_vec())
         }
         _ => unreachable!(),
     }
@@ -221,8 +229,7 @@ fn check_history<R: RngCore>(
     real: &mut R,
     twin_next: &mut dyn FnMut() -> u64,
     pre_skip: usize,
-    n_ops: usize,
-    p: &mut Prng,
+    next_op: &mut dyn FnMut(usize, &Proj) -> Option<Op>,
     r: &mut Report,
 ) -> Result<(Vec<Op>, HistStats), serde_json::Value> {
     let mut twin = Twin { words: Vec::new(), next: twin_next };
@@ -238,14 +245,9 @@ fn check_history<R: RngCore>(
         }
         proj.pos += 1;
     }
-    let block_bytes = match fam {
-        PFam::Block32(n) => n * 4,
-        PFam::Block64(n) => n * 8,
-        _ => 8,
-    };
-    let mut ops = Vec::with_capacity(n_ops);
-    for i in 0..n_ops {
-        let op = gen_out_op(p, proj.left_in_block(), block_bytes);
+    let mut ops = Vec::new();
+    let mut i = 0usize;
+    while let Some(op) = next_op(i, &proj) {
         let pos_before = proj.pos;
         let pending_before = proj.pending.is_some();
         let want = proj.expect(&op, &mut |k| twin.word(k));
@@ -284,6 +286,7 @@ fn check_history<R: RngCore>(
                 "expected": want.show(), "observed": got.show(), "ops": show_ops(&ops),
             }));
         }
+        i += 1;
     }
     // conservation: the real generator is exactly where the model says
     proj.pending = None;
@@ -301,6 +304,107 @@ fn check_history<R: RngCore>(
     Ok((ops, st))
 }
 
+fn block_bytes_of(fam: PFam) -> usize {
+    match fam {
+        PFam::Block32(n) => n * 4,
+        PFam::Block64(n) => n * 8,
+        _ => 8,
+    }
+}
+
+/// operation alphabet for the exhaustive short-sequence enumeration around
+/// block boundaries; B = block size in bytes (8 for unbuffered generators)
+fn boundary_alphabet(fam: PFam) -> Vec<Op> {
+    let b = block_bytes_of(fam);
+    let mut v = vec![Op::U32, Op::U64, Op::Fill(0), Op::Fill(1), Op::Fill(3), Op::Fill(4), Op::Fill(5), Op::Fill(8), Op::Fill(12)];
+    if b > 8 {
+        for n in [b - 1, b, b + 1, 2 * b, 2 * b + 4] {
+            v.push(Op::Fill(n));
+        }
+    }
+    v
+}
+
+/// every operation sequence of length `len` over the alphabet (index = id)
+fn boundary_sequence(fam: PFam, len: usize, mut id: u64) -> Vec<Op> {
+    let a = boundary_alphabet(fam);
+    (0..len).map(|_| { let k = (id % a.len() as u64) as usize; id /= a.len() as u64; a[k].clone() }).collect()
+}
+
+fn boundary_case<S: Spec>(sub: &str, id: u64, r: &mut Report) {
+    // id = ((start_slot * 2 + half) * A^3) + sequence index; start positions:
+    // two words before the block end, one before, exhausted, fresh, one into it
+    let fam: PFam = S::FAMILY.into();
+    let a = boundary_alphabet(fam).len() as u64;
+    let seqs = a * a * a;
+    let seq_idx = id % seqs;
+    let rest = id / seqs;
+    let half = rest % 2 == 1;
+    let slot = (rest / 2) as usize;
+    let bw = S::FAMILY.block_words();
+    let starts = [bw.saturating_sub(2).max(1), bw.saturating_sub(1).max(1), bw, 0, 1];
+    if slot >= starts.len() || (half && !matches!(fam, PFam::Block64(_))) || (bw == 1 && slot > 0) {
+        return;
+    }
+    let mut p = Prng::new(id ^ 0xb0b0);
+    let seed = p.bytes(S::SEED_LEN);
+    let mut real = S::from_seed(&seed);
+    let mut twin = S::from_seed(&seed);
+    let mut ops = boundary_sequence(fam, 3, seq_idx);
+    if half {
+        ops.insert(0, Op::U32); // leaves the high half of a word pending
+    }
+    let mut tn = || native(&mut twin, fam);
+    let mut gen = |i: usize, _: &Proj| ops.get(i).cloned();
+    match check_history(S::NAME, fam, &mut real, &mut tn, starts[slot], &mut gen, r) {
+        Ok((ops, _)) => {
+            r.distinct(hkey(&[&"boundary", &S::NAME, &starts[slot], &show_ops(&ops)]));
+            r.cov(&format!("boundary:{}", S::NAME));
+        }
+        Err(mut d) => {
+            d["type"] = json!(S::NAME);
+            d["seed"] = json!(hex(&seed));
+            d["pre_skip"] = json!(starts[slot]);
+            let sig = format!("{}:projection:{}:{}", S::NAME, d["phase"].as_str().unwrap_or("?"),
+                d["op"].as_str().map(|s| s.split('(').next().unwrap_or(s).to_string()).unwrap_or_default());
+            r.violation(sig, sub, id, d);
+        }
+    }
+}
+
+/// JitterRng: every sequence of length 4 over {u32, u64, fill(0|3|4|5|8|12)}
+fn jitter_boundary_case(sub: &str, id: u64, r: &mut Report) {
+    let alphabet = [Op::U32, Op::U64, Op::Fill(0), Op::Fill(3), Op::Fill(4), Op::Fill(5), Op::Fill(8), Op::Fill(12)];
+    let mut k = id;
+    let ops: Vec<Op> = (0..4).map(|_| { let o = alphabet[(k % 8) as usize].clone(); k /= 8; o }).collect();
+    if k > 0 {
+        return;
+    }
+    let mut p = Prng::new(id ^ 0x1771);
+    let readings = gen_script(&mut p, 0, 400);
+    let tail = p.u64();
+    let t_real = ScriptedTimer::new(readings.clone(), tail);
+    let t_twin = ScriptedTimer::new(readings, tail);
+    let mut real = rand_jitter::JitterRng::new_with_timer(t_real.closure());
+    let mut twin = rand_jitter::JitterRng::new_with_timer(t_twin.closure());
+    real.set_rounds(1);
+    twin.set_rounds(1);
+    let mut tn = || twin.next_u64();
+    let mut gen = |i: usize, _: &Proj| ops.get(i).cloned();
+    match check_history("JitterRng", PFam::Jitter, &mut real, &mut tn, 0, &mut gen, r) {
+        Ok((ops, _)) => {
+            r.distinct(hkey(&[&"boundary", &"JitterRng", &show_ops(&ops)]));
+            r.cov("boundary:JitterRng");
+        }
+        Err(mut d) => {
+            d["type"] = json!("JitterRng");
+            let sig = format!("JitterRng:projection:{}:{}", d["phase"].as_str().unwrap_or("?"),
+                d["op"].as_str().map(|s| s.split('(').next().unwrap_or(s).to_string()).unwrap_or_default());
+            r.violation(sig, sub, id, d);
+        }
+    }
+}
+
 fn word_bytes(f: Family) -> usize {
     (f.native_bits() / 8) as usize
 }
@@ -315,7 +419,9 @@ fn seeded_case<S: Spec>(sub: &str, id: u64, pre_skip_forced: Option<usize>, r: &
     let pre = pre_skip_forced.unwrap_or_else(|| p.below(bw as u64 + 2) as usize);
     let n_ops = p.range(8, 64) as usize;
     let mut tn = || native(&mut twin, fam);
-    match check_history(S::NAME, fam, &mut real, &mut tn, pre, n_ops, &mut p, r) {
+    let bb = block_bytes_of(fam);
+    let mut gen = |i: usize, proj: &Proj| if i < n_ops { Some(gen_out_op(&mut p, proj.left_in_block(), bb)) } else { None };
+    match check_history(S::NAME, fam, &mut real, &mut tn, pre, &mut gen, r) {
         Ok((ops, st)) => {
             r.distinct(hkey(&[&S::NAME, &seed, &show_ops(&ops)]));
             r.cov(&format!("type:{}", S::NAME));
@@ -358,7 +464,8 @@ fn jitter_case(sub: &str, id: u64, r: &mut Report) {
     twin.set_rounds(rounds);
     let mut tn = || twin.next_u64();
     let pre = p.below(3) as usize;
-    match check_history("JitterRng", PFam::Jitter, &mut real, &mut tn, pre, n_ops, &mut p, r) {
+    let mut gen = |i: usize, proj: &Proj| if i < n_ops { Some(gen_out_op(&mut p, proj.left_in_block(), 8)) } else { None };
+    match check_history("JitterRng", PFam::Jitter, &mut real, &mut tn, pre, &mut gen, r) {
         Ok((ops, _)) => {
             r.distinct(hkey(&[&"JitterRng", &(id), &show_ops(&ops)]));
             r.cov("type:JitterRng");
@@ -398,6 +505,16 @@ fn case(sub: &str, id: u64, r: &mut Report) {
             with_spec!(ti, S => seeded_case::<S>(sub, id, Some(idx), r));
         }
         "jitter" => jitter_case(sub, id, r),
+        // exhaustive short sequences around the block boundary: id = type << 40 | index
+        "boundary" => {
+            let ti = (id >> 40) as usize;
+            let idx = id & ((1u64 << 40) - 1);
+            if ti == N_TYPES {
+                jitter_boundary_case(sub, idx, r);
+            } else {
+                with_spec!(ti, S => boundary_case::<S>(sub, idx, r));
+            }
+        }
         _ => r.inconclusive(format!("unknown sub-monitor {} for C05", sub)),
     }
 }
@@ -419,16 +536,36 @@ pub fn run(ctx: &Ctx, only: Option<&Only>) -> Report {
     }
     total.merge(par(ctx.threads, |t, r| {
         for (k, &id) in enumerated.iter().enumerate() {
-            if k % ctx.threads == t {
+            if k % ctx.threads == t && ctx.keep(k as u64) {
                 case("start_index", id, r);
             }
         }
     }));
+    // exhaustive: all sequences of 3 operations (4 for JitterRng) over the boundary
+    // alphabet from 5 start positions (x2 half states for ISAAC-64) per type
+    let mut n_boundary = 0u64;
+    total.merge(par(ctx.threads, |t, r| {
+        let mut k = 0u64;
+        for ti in 0..=N_TYPES {
+            let (a, slots) = if ti == N_TYPES { (8u64, 0) } else {
+                with_spec!(ti, S => (boundary_alphabet(S::FAMILY.into()).len() as u64, if S::FAMILY.is_block() { 5u64 } else { 1 }))
+            };
+            let total_ids = if ti == N_TYPES { 8u64.pow(4) } else { a * a * a * slots * 2 };
+            for idx in 0..total_ids {
+                if k % ctx.threads as u64 == t as u64 && ctx.keep(k) {
+                    super::run_case("boundary", ((ti as u64) << 40) | idx, r, &|id, r: &mut Report| case("boundary", id, r));
+                }
+                k += 1;
+            }
+        }
+    }));
+    let _ = &mut n_boundary;
     let secs = if ctx.tier_thorough { ctx.budget_s } else { 0.0 };
     total.merge(drive(ctx, "history", ctx.n(60_000, 60_000), secs * 0.8, |id, r| case("history", id, r)));
     total.merge(drive(ctx, "jitter", ctx.n(1_500, 1_500), secs * 0.2, |id, r| case("jitter", id, r)));
     for name in TYPE_NAMES.iter().chain(["JitterRng"].iter()) {
         total.floor(&format!("type:{}", name), 20);
+        total.floor(&format!("boundary:{}", name), 700);
         for t in 0..8 {
             total.floor(&format!("{}:fill_tail:{}", name, t), 1);
         }
